@@ -10,6 +10,11 @@ c->s : pretty_print_notebook / pretty_print_notebook_diff / pretty_print_merge_d
 import io
 import json
 import multiprocessing
+import os
+import shutil
+import sys
+import copy
+import nbformat
 
 from . import common, tlc, mergedrv, concretize
 from .common import Check
@@ -197,10 +202,54 @@ def build_inputs(chk, n_pairs, n_triples):
     return inputs
 
 
+def terminal_runs(chk):
+    """The renderings as a user's shell runs them: real processes writing to their real stdout, under locales whose
+    terminal encoding cannot represent everything a valid notebook may contain (non-ASCII text under an ASCII
+    locale, a lone surrogate - half of an emoji cut by a truncated stream - under UTF-8)."""
+    import subprocess
+    import tempfile
+    from .common import REPO
+    d = tempfile.mkdtemp(prefix="c16t-", dir=tlc.scratch())
+    a = nbformat.v4.new_notebook()
+    a.cells = [nbformat.v4.new_code_cell("print('caf\u00e9 \u65e5\u672c\u8a9e \u2603')\nx = 1\n", execution_count=1,
+                                         outputs=[nbformat.v4.new_output("stream", name="stdout", text="caf\u00e9 \u2603\nline two\n")]),
+               nbformat.v4.new_markdown_cell("# Titre \u00e9\u00e8\n\ntexte\n")]
+    b = copy.deepcopy(a)
+    b.cells[0].source = "print('caf\u00e9 \u65e5\u672c\u8a9e \u2603!')\nx = 2\n"
+    b.cells[0].outputs[0]["text"] = "caf\u00e9 \u2603\nline 2 \ud83d\n"          # a lone surrogate: valid JSON, valid notebook
+    for name, nb in (("a.ipynb", a), ("b.ipynb", b)):
+        with io.open(os.path.join(d, name), "w", encoding="utf8") as f:
+            json.dump(nb, f)                                                    # ensure_ascii: escapes, so any text survives
+    cmds = {"nbshow-a": ("nbdime.nbshowapp", ["a.ipynb"]), "nbshow-b": ("nbdime.nbshowapp", ["b.ipynb"]),
+            "nbdiff": ("nbdime.nbdiffapp", ["a.ipynb", "b.ipynb"]),
+            "nbdiff-nocolor": ("nbdime.nbdiffapp", ["--no-color", "a.ipynb", "b.ipynb"])}
+    locales = {"ascii": {"LANG": "C", "LC_ALL": "C", "PYTHONUTF8": "0", "PYTHONCOERCECLOCALE": "0"},
+               "utf8": {"LANG": "C.UTF-8", "LC_ALL": "C.UTF-8"}}
+    n = 0
+    for lname, lenv in sorted(locales.items()):
+        for cname, (mod, argv) in sorted(cmds.items()):
+            env = {k: v for k, v in os.environ.items() if not k.startswith(("LC_", "LANG", "PYTHONIOENCODING", "PYTHONUTF8"))}
+            env.update(lenv)
+            env.update({"PYTHONPATH": REPO, "HOME": d, "JUPYTER_CONFIG_DIR": d, "JUPYTER_CONFIG_PATH": d})
+            p = subprocess.run([sys.executable, "-c", "import sys; from %s import main; sys.exit(main(%r))" % (mod, argv)],
+                               cwd=d, env=env, stdout=subprocess.PIPE, stderr=subprocess.PIPE, timeout=120)
+            n += 1
+            chk.count(("terminal", lname, cname), nontrivial=True)
+            if p.returncode != 0 or b"Traceback" in p.stderr or not p.stdout.strip():
+                chk.violation("terminal:%s:%s" % (cname.split("-")[0], lname),
+                              "%s under a %s locale: exit %s, %s" % (cname, lname, p.returncode, p.stderr[-300:].decode("ascii", "replace")),
+                              {"command": cname, "locale": lenv})
+            elif cname.endswith("nocolor") and b"\x1b[" in p.stdout:
+                chk.violation("terminal:ansi-without-colour:%s" % lname, "ANSI escape codes with --no-color", {"command": cname})
+    chk.notes["terminal_subprocess_renderings"] = n
+    shutil.rmtree(d, True)
+
+
 def run():
     global INPUTS
     chk = Check("C16", level="exploration")
     mergedrv.quiet_logging()
+    terminal_runs(chk)
     INPUTS = build_inputs(chk, 16 if chk.quick else 120, 6 if chk.quick else 60)
     r = tlc.run("RenderMatrix", CFG % len(INPUTS), workers=1, timeout=1800, name="RenderMatrix", xmx="8g")
     if r.invariant_violated or r.error:
